@@ -735,6 +735,117 @@ def r3_relurl(ctx, rep):
                     f"str() of an entity is an <a href> built from the absolute output path"), o.loc)
 
 
+    _relurl_only_rewrites_absolute_paths(ctx, rep)
+
+
+def relurl_replaced_sources(py):
+    """(relative_url, its event trace, the expression whose text is replaced, the events that give that expression its value)"""
+    fn = py.func("output.relative_url")
+    rel = [c for c in py.walk_calls(fn) if call_name(c).endswith("relpath") and c.args]
+    if len(rel) != 1:
+        raise AnalysisError("relative_url: expected one os.path.relpath call")
+    ev = astq.trace(fn)
+    # the text that is looked for in the argument and replaced: `<text>.replace(<old>, <new>)` with <new> made by relpath
+    reps = [c for c in py.walk_calls(fn) if isinstance(c.func, ast.Attribute) and c.func.attr == "replace" and len(c.args) >= 2
+            and any(any(x is rel[0] for x in ast.walk(y)) for y in [c.args[1]] + astq.expand_locals(c.args[1], fn))]
+    if len(reps) != 1:
+        raise AnalysisError("relative_url: the replacement of the old path by the relative one was not found")
+    arg = reps[0].args[0]
+    if isinstance(arg, ast.Name):
+        sources = [e for e in ev if e.kind == "assign" and e.target == arg.id and e.value is not None
+                   and not (isinstance(e.value, ast.Constant) and e.value.value is None)]
+    else:
+        sources = [e for e in ev if e.kind == "call" and e.node is reps[0]]
+    if not sources:
+        raise AnalysisError("relative_url: the text that is replaced has no source")
+    return fn, ev, arg, sources
+
+
+def _relurl_only_rewrites_absolute_paths(ctx, rep):
+    """relative_url() takes a path out of its argument, makes it relative to the page and puts it back by text replacement.  An
+    href that is relative already (a "Read more" link, a converted [[reference]], |url|) must come out unchanged: either the path
+    is made absolute first (then the replacement does not find it in the text), or the rewriting is restricted to absolute paths.
+    `os.path.relpath` of a relative path is taken against the *current directory*, which gives a link out of the output tree."""
+    py = ctx.py
+    fn, ev, arg, sources = relurl_replaced_sources(py)
+
+    def makes_absolute(v: ast.AST) -> bool:
+        return any(isinstance(c, ast.Call) and (call_name(c).split(".")[-1] in ("abspath", "realpath") or
+                                                (isinstance(c.func, ast.Attribute) and c.func.attr in ("resolve", "absolute")))
+                   for c in ast.walk(v))
+
+    def atom(x):
+        if isinstance(x, ast.Call) and (call_name(x) == "os.path.isabs" or (isinstance(x.func, ast.Attribute) and x.func.attr == "is_absolute")):
+            return ("abs", True)
+        return None
+    for e in sources:
+        v = e.value if e.kind == "assign" else arg
+        ok = makes_absolute(v) or astq.path_implies(e, atom, {"abs": True}) is True
+        rep.ob(f"relative_url: the replaced text `{ast.unparse(v)[:50]}` is an absolute path", ok,
+               "made absolute (or tested to be) before it is looked for in the text" if ok else
+               f"`{ast.unparse(v)[:60]}` can be a relative href as it stands in the text: it is found, and replaced by its position "
+               f"relative to the *current directory* - a correct relative link turns into one that leaves the output directory",
+               py.nloc(e.node))
+
+
+def _gather_recursion_covers_displayed_procedures(ctx, rep):
+    """Entities that always have a page (namelists) are gathered by walking down from the program units through their procedures.
+    The walk has to reach every procedure that is displayed, i.e. every procedure list the display filter recurses into: a list
+    that prune() descends into but the gathering walk does not (module functions / subroutines of a submodule, which correlate
+    moves into lists of their own) leaves the namelists of those procedures with a link to a page that is never written."""
+    py = ctx.py
+    from . import c05
+    pr = py.func("FortranCodeUnit.prune")
+    pruned: Set[str] = set()
+    for lp in ast.walk(pr):
+        if isinstance(lp, ast.For) and isinstance(lp.iter, ast.Call) and call_name(lp.iter) == "self.iterator" and \
+                any(call_name(c).endswith(".prune") for c in py.walk_calls(lp)):
+            pruned |= {a.value for a in lp.iter.args if isinstance(a, ast.Constant)}
+    proc_lists = {l for l in pruned if l in c05.LIST_ELEM and py.is_subclass(c05.LIST_ELEM[l], "FortranCodeUnit")
+                  and not py.is_subclass(c05.LIST_ELEM[l], "FortranType")}
+    if len(proc_lists) < 3:
+        raise AnalysisError(f"FortranCodeUnit.prune: the recursion into displayed procedures was not found ({sorted(pruned)})")
+    fn = py.func("Project.correlate")
+    subl = property_sublists(py, "FortranBase")
+    for cname in ("FortranContainer", "FortranCodeUnit"):
+        if cname in py.classes:
+            for k, v in property_sublists(py, cname).items():
+                subl.setdefault(k, set()).update(v)
+    # `return self.iterator("functions", ...)` style properties
+    for cname in ("FortranBase", "FortranContainer", "FortranCodeUnit"):
+        ci = py.classes.get(cname)
+        for pname in (ci.properties if ci else []):
+            for c in py.walk_calls(ci.methods[pname]):
+                if call_name(c) == "self.iterator":
+                    subl.setdefault(pname, set()).update(a.value for a in c.args if isinstance(a, ast.Constant))
+    n = 0
+    for h in ast.walk(fn):
+        if not (isinstance(h, ast.FunctionDef) and h is not fn and h.args.args):
+            continue
+        ent = h.args.args[0].arg
+        regs = [c for c in py.walk_calls(h) if re.fullmatch(r"self\.\w+\.(extend|append)", call_name(c))]
+        rec = [lp for lp in ast.walk(h) if isinstance(lp, ast.For) and any(call_name(c) == h.name for c in py.walk_calls(lp))]
+        if not regs or not rec:
+            continue
+        n += 1
+        walked: Set[str] = set()
+        for lp in rec:
+            for a in ast.walk(lp.iter):
+                if isinstance(a, ast.Attribute) and ast.unparse(a.value) == ent:
+                    walked |= subl.get(a.attr, {a.attr})
+                if isinstance(a, ast.Constant) and isinstance(a.value, str):
+                    walked.add(a.value)
+        missing = sorted(proc_lists - walked)
+        lst = call_name(regs[0]).split(".")[1]
+        rep.ob(f"Project.correlate.{h.name}: the walk that fills project.{lst} reaches every displayed procedure", not missing,
+               f"descends into {sorted(walked & proc_lists)}" if not missing else
+               f"`{h.name}` descends into {sorted(walked & set(c05.LIST_ELEM))} but the display filter also keeps the procedures in {missing}: a `{lst[:-1]}` "
+               f"declared in such a procedure is shown on its page with a link to `{lst[:-1]}/<name>.html`, which is never written",
+               py.nloc(h))
+    if n == 0:
+        raise AnalysisError("Project.correlate: no recursive gathering helper found")
+
+
 # ------------------------------------------------------------------------------ R4
 def template_depths(ctx) -> Dict[str, Set[str]]:
     """template file -> set of depths {'0','1','var'} of the pages that include text from it."""
@@ -1122,7 +1233,31 @@ def r7_pageable_entities_get_pages(ctx, rep):
     if not nested or not parents:
         raise AnalysisError("FortranBase.get_dir: nested-entity rule not found")
     pageable = [e.id for e in nested[0].args[1].elts if isinstance(e, ast.Name)]
-    parent_classes = [e.id for e in parents[0].args[1].elts if isinstance(e, ast.Name)]
+    # the classes of parent under which such an entity has a page of its own: every concrete container class for which the
+    # tests on `self.parent` along the path to `return self.obj` can hold (class tuples, base classes and negations alike)
+    gev = [e for e in astq.trace(base) if e.kind == "return" and e.value is not None and ast.unparse(e.value) == "self.obj"]
+    concrete = sorted(c for c, ci in py.classes.items() if ci.module == "sourceform" and c.startswith("Fortran")
+                      and py.is_subclass(c, "FortranContainer") and c not in ("FortranContainer", "FortranCodeUnit", "FortranProcedure"))
+
+    def parent_atom_for(cls):
+        def atom(x):
+            if isinstance(x, ast.Call) and call_name(x) == "isinstance" and len(x.args) == 2 and ast.unparse(x.args[0]) == "self.parent":
+                ks = x.args[1].elts if isinstance(x.args[1], ast.Tuple) else [x.args[1]]
+                names = [ast.unparse(k) for k in ks]
+                if all(k in py.classes for k in names):
+                    return ("yes", True) if any(py.is_subclass(cls, k) for k in names) else ("no", True)
+            if isinstance(x, ast.Call) and call_name(x) == "isinstance" and len(x.args) == 2 and ast.unparse(x.args[0]) == "self":
+                # the entity asked about is one of the nested kinds (a derived type, say), not a unit that always has a page
+                ks = x.args[1].elts if isinstance(x.args[1], ast.Tuple) else [x.args[1]]
+                names = [ast.unparse(k) for k in ks]
+                if all(k in py.classes for k in names):
+                    return ("yes", True) if any(py.is_subclass("FortranType", k) for k in names) else ("no", True)
+            return None
+        return atom
+    parent_classes = [c for c in concrete
+                      if any(astq.event_fires(e, parent_atom_for(c), {"yes": True, "no": False}) is not False for e in gev[-1:])]
+    if not parent_classes:
+        parent_classes = [e.id for e in parents[0].args[1].elts if isinstance(e, ast.Name)]
     lists = sorted(l for l, c in c05.LIST_ELEM.items() if any(py.is_subclass(c, p) for p in pageable))
     fn = py.func("Project.correlate")
     cont = None
@@ -1137,6 +1272,12 @@ def r7_pageable_entities_get_pages(ctx, rep):
     epm = entity_page_map(py)
     unit_attr = {"FortranModule": "modules", "FortranSubmodule": "submodules", "FortranProgram": "programs",
                  "FortranBlockData": "blockdata"}
+    for pc in parent_classes:
+        if pc not in unit_attr and pc != "FortranSourceFile":
+            rep.ob(f"members of {pc} have pages only if the project gathers them", False,
+                   f"get_dir() gives {pageable} declared in a {pc} a page URL of their own, but pages are made from the lists that "
+                   f"Project.correlate gathers from {sorted(unit_attr.values())} only: every link to such an entity dangles "
+                   f"(it is rendered on the page of the {pc}, under an anchor)", py.nloc(base))
     for ucls, attr in unit_attr.items():
         if ucls not in parent_classes:
             continue
@@ -1187,6 +1328,10 @@ def r7_pageable_entities_get_pages(ctx, rep):
                         out.append(iter_class[attr])
                 if re.search(r"\.routines\b", it):
                     out += ROUTINE_CLASSES
+                # `<x>.iterator("functions", "modprocedures", ...)`: the element classes of the named lists
+                for lst in re.findall(r"['\"](\w+)['\"]", it):
+                    if lst in c05.LIST_ELEM and ".iterator(" in it:
+                        out.append(c05.LIST_ELEM[lst])
                 return out
 
             for c in py.walk_calls(host):
@@ -1206,14 +1351,25 @@ def r7_pageable_entities_get_pages(ctx, rep):
                         covered.setdefault(k, loopvar.get(x, ""))
                     continue
                 # registration inside a local helper h(x): look at its call sites
-                recurse = any(call_name(k) == h.name for k in py.walk_calls(h)) and ".routines" in ast.unparse(h)
+                # the helper calls itself for the members of some lists of its argument: those members' classes are covered too
+                rec_lists: Set[str] = set()
+                for lp in ast.walk(h):
+                    if isinstance(lp, ast.For) and any(call_name(k) == h.name for k in py.walk_calls(lp)):
+                        for a in ast.walk(lp.iter):
+                            if isinstance(a, ast.Attribute) and a.attr == "routines":
+                                rec_lists |= {"functions", "subroutines", "modprocedures"}
+                            elif isinstance(a, ast.Attribute) and a.attr in c05.LIST_ELEM:
+                                rec_lists.add(a.attr)
+                            elif isinstance(a, ast.Constant) and a.value in c05.LIST_ELEM:
+                                rec_lists.add(a.value)
+                recurse = bool(rec_lists)
                 for k in py.walk_calls(host):
                     if call_name(k) == h.name and k.args and not any(y is k for y in ast.walk(h)):
                         for cl in classes_of(k.args[0]):
                             covered.setdefault(cl, loopvar.get(ast.unparse(k.args[0]), ""))
                 if recurse and covered:
-                    for cl in ROUTINE_CLASSES:
-                        covered.setdefault(cl, "recursion into .routines")
+                    for cl in sorted({c05.LIST_ELEM[x] for x in rec_lists}):
+                        covered.setdefault(cl, f"recursion into {sorted(rec_lists)}")
         for o in sorted(owners):
             ok = l in epm and o in covered
             rep.ob(f"{o}.{l} gathered into a paged project list", ok,
@@ -1231,6 +1387,7 @@ def r7_pageable_entities_get_pages(ctx, rep):
     for lst in ("modules", "submodules", "procedures", "programs", "blockdata", "files"):
         ok = lst in filled and (lst in epm or lst == "files")
         rep.ob(f"top-level {lst} registered and paged", ok, "", "ford/fortran_project.py", nontrivial=False)
+    _gather_recursion_covers_displayed_procedures(ctx, rep)
 
 
 
